@@ -59,7 +59,7 @@ def ldirectory(inpath, outpath, args, scope):
                 yacc_debug=(args.debug),
                 lex_optimize=True,
                 yacc_optimize=(not args.debug),
-                scope=scope,
+                scope=copy.deepcopy(scope),
                 tabfile=yacctab,
                 verbose=args.verbose)
             p.parse(filename=lf, debuglevel=0)
